@@ -491,7 +491,10 @@ def null_from(
         nonlocal result
         edges = nfa[n]
         if len(edges) == 1 and not edges[0].get("term"):
-            return scan(cast(int, edges[0]["to"]))
+            target = cast(int, edges[0]["to"])
+            if target not in result:
+                scan(target)
+            return
         result.append(n)
         for edge in edges:
             term, to = edge.get("term"), edge.get("to")
